@@ -86,6 +86,7 @@ fn main() {
         "worker" => cmd_worker(&args[2..]),
         "replay" => cmd_replay(&args[2..]),
         "log" => cmd_log(&args[2..]),
+        "explain" => cmd_explain(&args[2..]),
         "list" => {
             for p in props::all() {
                 println!("{} {} quick={} thorough={}", p.id, p.title, p.quick_runs, p.thorough_runs);
@@ -549,5 +550,44 @@ fn cmd_log(args: &[String]) {
             st.finish(),
             rep.nontrivial
         );
+    }
+}
+
+/// re-run one generated run with library panics treated as violations, shrink it and print the schedule
+fn cmd_explain(args: &[String]) {
+    let pid = arg(args, "--property").expect("--property");
+    let mut prop = props::find(pid).expect("property");
+    prop.panic_is_violation = true;
+    let seed: u64 = arg(args, "--seed").and_then(|s| s.parse().ok()).unwrap_or(1);
+    let idx: u64 = arg(args, "--run").and_then(|s| s.parse().ok()).unwrap_or(0);
+    let run_seed = prng::derive_seed(seed, salt_of(prop.id), idx);
+    let (cfg, evs) = gen::gen_run(run_seed, &(prop.profile)());
+    let rep = execute(&prop, run_seed, &cfg, &evs);
+    match rep.verdict {
+        Verdict::Violation(v) => {
+            let (min, mv, tried) = shrink(&prop, run_seed, &cfg, &evs, &v, 3000);
+            println!("{} events -> {} after {} candidates", evs.len(), min.len(), tried);
+            println!("cfg: {}", serde_json::to_string(&cfg).unwrap());
+            for e in &min {
+                println!("  {}", serde_json::to_string(e).unwrap());
+            }
+            println!("oracle={} signature={} step={}\n{}", mv.oracle, mv.signature, mv.step, mv.detail);
+            let rf = ReplayFile {
+                property: prop.id.to_string(),
+                engine_version: ENGINE_VERSION,
+                run_seed,
+                cfg,
+                events: min,
+                expected: mv,
+                minimised: true,
+                original_events: evs.len(),
+            };
+            let rdir = verif_dir().join("replays");
+            let _ = std::fs::create_dir_all(&rdir);
+            let path = rdir.join(format!("explain-{}-{}.json", prop.id, run_seed));
+            std::fs::write(&path, serde_json::to_string_pretty(&rf).unwrap()).unwrap();
+            println!("replay file: {}", path.display());
+        }
+        other => println!("{other:?}"),
     }
 }
